@@ -27,26 +27,28 @@ theorem utf8Decode_utf8 (s : Str) : utf8Decode? (utf8 s) = some s := by
   rw [h]
   simp
 
-theorem unquoteBytes_nil : unquoteBytes [] = some [] := by
+theorem unquoteBytes_nil (p : Bool) : unquoteBytes p [] = some [] := by
   unfold unquoteBytes; rfl
 
-theorem unquoteBytes_pct (h l : Char) (rest : List Char) (x y : Nat) (hx : hexVal h = some x) (hy : hexVal l = some y) :
-    unquoteBytes ('%' :: h :: l :: rest) = (unquoteBytes rest).map (UInt8.ofNat (x * 16 + y) :: ·) := by
+theorem unquoteBytes_pct (p : Bool) (h l : Char) (rest : List Char) (x y : Nat) (hx : hexVal h = some x)
+    (hy : hexVal l = some y) :
+    unquoteBytes p ('%' :: h :: l :: rest) = (unquoteBytes p rest).map (UInt8.ofNat (x * 16 + y) :: ·) := by
   rw [unquoteBytes.eq_def]
   simp only [↓reduceIte, hx, hy]
-  cases unquoteBytes rest <;> rfl
+  cases unquoteBytes p rest <;> rfl
 
 theorem unquoteBytes_plus (rest : List Char) :
-    unquoteBytes ('+' :: rest) = (unquoteBytes rest).map (32 :: ·) := by
+    unquoteBytes true ('+' :: rest) = (unquoteBytes true rest).map (32 :: ·) := by
   rw [unquoteBytes.eq_def]; simp
 
-theorem unquoteBytes_other (c : Char) (rest : List Char) (h1 : c ≠ '%') (h2 : c ≠ '+') :
-    unquoteBytes (c :: rest) = (unquoteBytes rest).map (String.utf8EncodeChar c ++ ·) := by
+theorem unquoteBytes_other (p : Bool) (c : Char) (rest : List Char) (h1 : c ≠ '%') (h2 : c ≠ '+') :
+    unquoteBytes p (c :: rest) = (unquoteBytes p rest).map (String.utf8EncodeChar c ++ ·) := by
   rw [unquoteBytes.eq_def]; simp [h1, h2]
 
-/-- one escaped byte is read back as that byte -/
-theorem unquoteBytes_quoteByte (b : UInt8) (rest : List Char) :
-    unquoteBytes (quoteByte b ++ rest) = (unquoteBytes rest).map (b :: ·) := by
+/-- one escaped byte is read back as that byte, by either decoder — provided that an encoder writing `+` for a
+space (`q`) is read by the decoder that knows it (`p`) -/
+theorem unquoteBytes_quoteByte (q p : Bool) (hqp : q = true → p = true) (b : UInt8) (rest : List Char) :
+    unquoteBytes p (quoteByte q b ++ rest) = (unquoteBytes p rest).map (b :: ·) := by
   have hb := b.toNat_lt
   unfold quoteByte
   simp only []
@@ -55,35 +57,43 @@ theorem unquoteBytes_quoteByte (b : UInt8) (rest : List Char) :
     simp only [Bool.and_eq_true, decide_eq_true_eq] at h
     obtain ⟨h128, hs⟩ := h
     obtain ⟨n1, n2, _⟩ := safe_ne hs
-    rw [List.singleton_append, unquoteBytes_other _ _ n1 n2, utf8EncodeChar_ascii _ h128, UInt8.ofNat_toNat]
+    rw [List.singleton_append, unquoteBytes_other _ _ _ n1 n2, utf8EncodeChar_ascii _ h128, UInt8.ofNat_toNat]
     rfl
   · split
     · next h32 =>
-      have : b = 32 := UInt8.toNat_inj.mp (by simpa using h32)
+      simp only [Bool.and_eq_true, decide_eq_true_eq] at h32
+      have : b = 32 := UInt8.toNat_inj.mp (by simpa using h32.2)
       subst this
+      rw [hqp h32.1]
       exact unquoteBytes_plus rest
-    · show unquoteBytes ('%' :: hexUpper (b.toNat / 16) :: hexUpper (b.toNat % 16) :: rest) = _
-      rw [unquoteBytes_pct _ _ _ _ _ (hexVal_hexUpper _ (by omega)) (hexVal_hexUpper _ (by omega))]
+    · show unquoteBytes p ('%' :: hexUpper (b.toNat / 16) :: hexUpper (b.toNat % 16) :: rest) = _
+      rw [unquoteBytes_pct _ _ _ _ _ _ (hexVal_hexUpper _ (by omega)) (hexVal_hexUpper _ (by omega))]
       have : UInt8.ofNat (b.toNat / 16 * 16 + b.toNat % 16) = b := by
         rw [show b.toNat / 16 * 16 + b.toNat % 16 = b.toNat by omega]; exact UInt8.ofNat_toNat
       rw [this]
 
-theorem unquoteBytes_quotePlusBytes (bs : Bytes) : unquoteBytes (quotePlusBytes bs) = some bs := by
+theorem unquoteBytes_quoteBytes (q p : Bool) (hqp : q = true → p = true) (bs : Bytes) :
+    unquoteBytes p (quoteBytes q bs) = some bs := by
   induction bs with
-  | nil => exact unquoteBytes_nil
+  | nil => exact unquoteBytes_nil p
   | cons b bs ih =>
-    show unquoteBytes (List.flatMap quoteByte (b :: bs)) = _
-    rw [List.flatMap_cons, unquoteBytes_quoteByte]
-    show Option.map _ (unquoteBytes (quotePlusBytes bs)) = _
+    show unquoteBytes p (List.flatMap (quoteByte q) (b :: bs)) = _
+    rw [List.flatMap_cons, unquoteBytes_quoteByte q p hqp]
+    show Option.map _ (unquoteBytes p (quoteBytes q bs)) = _
     rw [ih]; rfl
 
-/-- **`unquote_plus(quote_plus(s)) == s`** for every string -/
-theorem unquotePlus_quotePlus (s : Str) : unquotePlus (quotePlus s) = some s := by
-  unfold unquotePlus quotePlus
-  rw [unquoteBytes_quotePlusBytes]
+/-- decoder `p` inverts encoder `q` on every string whenever `q → p` -/
+theorem unquoteWith_quoteWith (q p : Bool) (hqp : q = true → p = true) (s : Str) :
+    unquoteWith p (quoteWith q s) = some s := by
+  unfold unquoteWith quoteWith
+  rw [unquoteBytes_quoteBytes q p hqp]
   exact utf8Decode_utf8 s
 
-theorem quoteByte_no_slash (b : UInt8) : '/' ∉ quoteByte b := by
+/-- **`unquote_plus(quote_plus(s)) == s`** for every string -/
+theorem unquotePlus_quotePlus (s : Str) : unquotePlus (quotePlus s) = some s :=
+  unquoteWith_quoteWith true true (fun h => h) s
+
+theorem quoteByte_no_slash (q : Bool) (b : UInt8) : '/' ∉ quoteByte q b := by
   have hb := b.toNat_lt
   unfold quoteByte
   simp only []
@@ -98,10 +108,10 @@ theorem quoteByte_no_slash (b : UInt8) : '/' ∉ quoteByte b := by
       have h2 := hexUpper_ne_slash (b.toNat % 16) (by omega)
       simp [Ne.symm h1, Ne.symm h2]
 
-theorem quotePlusBytes_no_slash (bs : Bytes) : '/' ∉ quotePlusBytes bs := by
-  unfold quotePlusBytes
+theorem quoteBytes_no_slash (q : Bool) (bs : Bytes) : '/' ∉ quoteBytes q bs := by
+  unfold quoteBytes
   intro h
   obtain ⟨b, _, hb⟩ := List.mem_flatMap.mp h
-  exact quoteByte_no_slash b hb
+  exact quoteByte_no_slash q b hb
 
 end PromVerif.Lemmas.Quote
